@@ -41,7 +41,7 @@ ASSUMPTIONS = ["ChaCha20-Poly1305 in ipv8_rust_tunnels is trusted (the oracle pe
 REACH = ["delivered_forward", "delivered_backward", "layer_checked_forward", "layer_checked_backward", "hops:1", "hops:2",
          "hops:3", "fault:flip", "fault:cid", "fault:splice", "fault:inject", "fault:flag", "fault:plain_data", "tampered_dropped",
          "speedtest_ok", "e2e_linked", "e2e_delivered", "e2e_reader_checked", "sent_from_ready_callback", "plain_reader_checked",
-         "e2e_ipv8_shaped_payload", "fault:reflect", "outside_answer_during_removal_grace_period", "nested_data_message_from_outside", "fault:rp_inject_at_link", "destination_by_host_name"]
+         "e2e_ipv8_shaped_payload", "fault:reflect", "outside_answer_during_removal_grace_period", "nested_data_message_from_outside", "fault:rp_inject_at_link", "destination_by_host_name", "same_host_name_other_port"]
 
 SIZES = [2, 3, 10, 22, 23, 24, 64, 100, 279, 500, 1000, 1399, 1400]
 
@@ -425,7 +425,7 @@ def execute(case: dict) -> dict:  # noqa: C901, PLR0915
     late_markers: list = []
     faults = case.get("faults", [])
     lossy = bool(case["knobs"].get("loss")) or bool(faults)
-    state = {"phase": "build", "cells": 0, "tampered_ids": set()}
+    state = {"phase": "build", "cells": 0, "tampered_ids": set(), "bitflips": {}}
     bodies_by_circuit: dict = {}
 
     def apply_fault(f: dict, data: bytes, pkt):  # noqa: ANN001, ANN202
@@ -495,6 +495,7 @@ def execute(case: dict) -> dict:  # noqa: C901, PLR0915
                     inj = net.inject(pkt.wire_src if pkt.wire_src else pkt.src, pkt.dst, bytes(b), delay=0.001 + p * 1e-5,
                                      label="tampered")
                     state["tampered_ids"].add(inj.id)
+                    state["bitflips"][inj.id] = p
                 continue
             m = apply_fault(f, pkt.data, pkt)
             if m is None or m == pkt.data:
@@ -521,8 +522,17 @@ def execute(case: dict) -> dict:  # noqa: C901, PLR0915
         # several packets for one name are in flight inside the exit at once
         world.dns["w0.example"] = "9.9.9.9"
         w_dest = DomainAddress("w0.example", 7000) if case.get("by_name") else UDPv4Address(*w.address)
+        port_b: list = []        # what a second port (7001) of the same outside host received: (t, data, src)
+        res["port_b"] = port_b
+        res["to_b"] = set()
         if case.get("by_name"):
             world.probe("destination_by_host_name")
+
+            class PortB(asyncio.DatagramProtocol):
+                def datagram_received(self, data, addr) -> None:  # noqa: ANN001
+                    port_b.append((world.loop.time(), data, addr))
+            with world.as_node("w0"):
+                net.create_datagram_endpoint(PortB, ("9.9.9.9", 7001), None)
         w2 = tw.add_outside("w1", "9.9.9.10", 7001)
         await tw.introduce()
         o = tw.nodes[0]
@@ -559,8 +569,15 @@ def execute(case: dict) -> dict:  # noqa: C901, PLR0915
                 payload = payload[:-1] + b"e"
             sent_fwd[payload] = marker if len(payload) >= 2 + len(marker) else None
             sent_times[payload] = sent_times.get(payload, 0) + 1
-            sent_bwd.add(w.reply(payload, None))
-            o.call(o.ov.send_data, circ.hop.address, circ.circuit_id, w_dest, ("0.0.0.0", 0), payload)
+            dest_now = w_dest
+            if case.get("by_name") and mk % 3 == 2 and sent_fwd[payload] is not None and sent_times[payload] == 1:
+                # same host name, ANOTHER port (a silent listener): every packet leaves towards the port it names
+                dest_now = DomainAddress("w0.example", 7001)
+                res["to_b"].add(payload)
+                world.probe("same_host_name_other_port")
+            else:
+                sent_bwd.add(w.reply(payload, None))
+            o.call(o.ov.send_data, circ.hop.address, circ.circuit_id, dest_now, ("0.0.0.0", 0), payload)
             if circ2 is not None and circ2.state == "READY":
                 p2 = b"d" + b"C2%06d" % mk + rng.randbytes(20) + b"e"
                 tw.nodes[1].call(tw.nodes[1].ov.send_data, circ2.hop.address, circ2.circuit_id, UDPv4Address(*w2.address),
@@ -625,6 +642,16 @@ def execute(case: dict) -> dict:  # noqa: C901, PLR0915
     exit_node = path[-1]
     # ---- (3) + (1): deliveries at the outside server
     seen_fwd = set()
+    for _t, data, _src in res.get("port_b", ()):
+        if data in res["to_b"]:
+            seen_fwd.add(data)
+        elif data in sent_fwd:
+            c.violate("right_destination", "payload_left_exit_towards_other_port",
+                      f"a {len(data)}-byte payload addressed to w0.example:7000 arrived at port 7001 of that host")
+    for _t, data, _src in w.received:
+        if data in res.get("to_b", ()):
+            c.violate("right_destination", "payload_left_exit_towards_other_port",
+                      f"a {len(data)}-byte payload addressed to w0.example:7001 arrived at port 7000 of that host")
     if not lossy and not case["faults"] and not case["knobs"].get("dup"):
         # nothing duplicates datagrams in this run: every payload went into the circuit once and may leave the exit once
         cnt: dict = {}
@@ -781,6 +808,18 @@ def execute(case: dict) -> dict:  # noqa: C901, PLR0915
                         world.probe("layer_checked_backward")
             except Exception as e:  # noqa: BLE001
                 c.violate("layering", "backward_layer_does_not_peel", str(e))
+    # a copy of a genuine cell with ONE bit flipped in the overlay prefix is dropped by whoever receives it: that node sends nothing
+    # because of it (a flip further back may legitimately travel on: a relay cannot authenticate what it merely wraps in one more
+    # layer, the END of the circuit drops it - that is what the delivery oracles above check)
+    for pid, pos in sorted(state["bitflips"].items()):
+        if pos >= 22:
+            continue
+        caused = [q for q in tw.wire if q.cause == pid]
+        if caused:
+            q = caused[0]
+            c.violate("intact_or_dropped", "altered_cell_was_processed:prefix",
+                      f"a cell with one bit flipped at byte {pos} (overlay prefix) made {q.src_node} send {len(q.data)} bytes to {q.dst} ({q.label})")
+            break
     if state["tampered_ids"]:
         world.probe("tampered_dropped", len(state["tampered_ids"]))
     world.trace.event("c04", None, (len(w.received), len(tw.delivered_raw), len(state["tampered_ids"])))
